@@ -96,10 +96,12 @@ func (h accountsResourceHandler) ResolveFilter(opts common.ResourceQuery[any], o
 			selectBalance = selectBalance.Where("asset = ?", balanceRegex.FindAllStringSubmatch(property, 2)[0][1])
 		}
 
-		return h.store.db.NewSelect().
+		// an account that never held the asset has no balance row: the test must then
+		// be false, not NULL, for a `$not` to select the account (see metadataOrEmpty)
+		return "coalesce((" + h.store.db.NewSelect().
 			TableExpr("(?) balance", selectBalance).
 			ColumnExpr(fmt.Sprintf("balance %s ?", common.ConvertOperatorToSQL(operator)), value).
-			String(), nil, nil
+			String() + "), false)", nil, nil
 	case property == "metadata":
 		return "metadata -> ? is not null", []any{value}, nil
 
